@@ -189,8 +189,11 @@ class Impl6(H5.Impl):
         elif kind == "rebind":
             _, i, k, no = ev
             td = self.nodes[i]
-            td[0] = {k: f"w{no}"}
+            before = td._tensordict[k]
+            td[no % 2] = {k: f"w{no}"}
             v = td._tensordict[k]
+            if v is before:
+                raise RuntimeError("an indexed non-tensor write left the entry bound to the same object (no re-bind, nothing invalidated)")
             self.nt_no[id(v)] = no
             self.keep.append(v)
             self.fresh_nt.discard((i, k))
@@ -500,7 +503,12 @@ def _gen_event6(rng, impl: Impl6, obj_counter, leaf_fns):
         return ("read", i, m, [])
     if live and r < 0.44:
         from tensordict import NonTensorData
-        cands = [(i, k) for (i, k) in impl.fresh_nt if impl.nodes[i] is not None and type(impl.nodes[i]._tensordict.get(k)) is NonTensorData]
+        # the first indexed write turns a NonTensorData into a NonTensorStack; later ones land on an entry that is a stack already and
+        # rebind it again (`maybe_to_stack` builds a new stack): every one of them is a `rebind` of the model
+        from tensordict.utils import is_non_tensor
+        # (a stack that was created while its holder was unlocked and locked with it afterwards refuses the write: lock error, nothing to model)
+        cands = [(i, "nt") for i in live if not impl.is_lazy(impl.nodes[i]) and not impl.is_tc(impl.nodes[i]) and is_non_tensor(impl.nodes[i]._tensordict.get("nt"))
+                 and (type(impl.nodes[i]._tensordict.get("nt")) is NonTensorData or not impl.nodes[i]._tensordict.get("nt").is_locked)]
         if cands:
             i, k = rng.choice(sorted(cands))
             obj_counter[0] += 1
